@@ -220,7 +220,7 @@ func (m *Model) RunKinds(s *Sink, rule string) {
 				}
 				seen[b] = true
 				if ret, isRet := b.Instrs[len(b.Instrs)-1].(*ssa.Return); isRet {
-					if c, isC := stripIface(ret.Results[0]).(*ssa.Call); isC && c.Call.StaticCallee() != nil && c.Call.StaticCallee().Name() == "newError" {
+					if c, isC := stripIface(ret.Results[0]).(*ssa.Call); isC && c.Call.StaticCallee() != nil && canonFnName(c.Call.StaticCallee()) == "newError" {
 						okGuard = false
 						badPos = m.InstrPos(ret)
 					}
@@ -244,7 +244,7 @@ func (m *Model) RunKinds(s *Sink, rule string) {
 	missErr := false
 	for _, b := range oi.Blocks {
 		if r, ok := b.Instrs[len(b.Instrs)-1].(*ssa.Return); ok {
-			if c, ok := stripIface(r.Results[0]).(*ssa.Call); ok && c.Call.StaticCallee() != nil && c.Call.StaticCallee().Name() == "newError" {
+			if c, ok := stripIface(r.Results[0]).(*ssa.Call); ok && c.Call.StaticCallee() != nil && canonFnName(c.Call.StaticCallee()) == "newError" {
 				if msg, ok := constOfValue(c.Call.Args[2]); ok && strings.Contains(msg, "not found") {
 					missErr = true
 				}
